@@ -57,11 +57,18 @@ func (inst *InstAlloca) String() string {
 
 // Type returns the type of the instruction.
 func (inst *InstAlloca) Type() types.Type {
-	// Cache type if not present; recompute it if the address space was set
-	// after the type was cached (as done by ir.NewAlloca and the parser).
-	if inst.Typ == nil || inst.Typ.AddrSpace != inst.AddrSpace {
+	// Cache type if not present.
+	if inst.Typ == nil {
 		inst.Typ = types.NewPointer(inst.ElemType)
 		inst.Typ.AddrSpace = inst.AddrSpace
+	}
+	if inst.Typ.AddrSpace != inst.AddrSpace {
+		// The address space was set after the type was cached (as done by users
+		// of ir.NewAlloca). The cached type is left as is, since Type may be
+		// called by concurrent printers.
+		typ := types.NewPointer(inst.ElemType)
+		typ.AddrSpace = inst.AddrSpace
+		return typ
 	}
 	return inst.Typ
 }
